@@ -10,6 +10,7 @@ N2  M[k] if k in M else D                                ->  M.get(k, D)        
 N2s if k in M: v = M[k]  else: v = D                     ->  v = M.get(k, D)
 N3  "..{}..{}..".format(a, b)   (only {} / {0} fields)   ->  f"..{a}..{b}.."
 N5  return A if c else B                                 ->  if c: return A  else: return B
+N11 dumps = json.dumps  (function-level, bound once) … dumps(x)   ->  json.dumps(x)
 N8  f(**{"a": x})                                         ->  f(a=x)
 N9  dict() / list() / tuple()                              ->  {} / [] / ()
 N7  x = A if c else B                                      ->  if c: x = A  else: x = B
@@ -292,9 +293,70 @@ def _merge_dict_steps(stmts: List[ast.stmt]) -> int:
     return n
 
 
+def _inline_function_aliases(tree: ast.Module) -> int:
+    """N11: `dumps = json.dumps` at the top of a function (bound once, module-rooted dotted name, never rebound) …
+    `dumps(x)`  ->  `json.dumps(x)`: a local that only abbreviates a module-level callable is read as that callable."""
+    module_names = set()
+    for s in tree.body:
+        if isinstance(s, (ast.Import, ast.ImportFrom)):
+            for a in s.names:
+                module_names.add((a.asname or a.name).split(".")[0])
+        elif isinstance(s, (ast.FunctionDef, ast.AsyncFunctionDef, ast.ClassDef)):
+            module_names.add(s.name)
+        elif isinstance(s, ast.Assign):
+            for t in s.targets:
+                if isinstance(t, ast.Name):
+                    module_names.add(t.id)
+    n_total = 0
+    for fn in [n for n in ast.walk(tree) if isinstance(n, (ast.FunctionDef, ast.AsyncFunctionDef))]:
+        params = {a.arg for a in ast.walk(fn.args) if isinstance(a, ast.arg)}
+        stores: dict = {}
+        for x in ast.walk(fn):
+            if isinstance(x, ast.Name) and isinstance(x.ctx, (ast.Store, ast.Del)):
+                stores[x.id] = stores.get(x.id, 0) + 1
+            elif isinstance(x, (ast.Global, ast.Nonlocal)):
+                for nm in x.names:
+                    stores[nm] = stores.get(nm, 0) + 5
+        local_imports = {(a.asname or a.name).split(".")[0] for x in ast.walk(fn) if isinstance(x, (ast.Import, ast.ImportFrom)) for a in x.names}
+        aliases = {}
+        own = []
+        stack = list(fn.body)
+        while stack:
+            x = stack.pop()
+            if isinstance(x, (ast.FunctionDef, ast.AsyncFunctionDef, ast.ClassDef, ast.Lambda)):
+                continue
+            own.append(x)
+            stack.extend(ast.iter_child_nodes(x))
+        for s in own:
+            if isinstance(s, ast.Assign) and len(s.targets) == 1 and isinstance(s.targets[0], ast.Name) and stores.get(s.targets[0].id) == 1 and s.targets[0].id not in params:
+                v = s.value
+                root = v
+                depth = 0
+                while isinstance(root, ast.Attribute):
+                    root = root.value
+                    depth += 1
+                if depth >= 1 and isinstance(root, ast.Name) and (root.id in module_names or root.id in local_imports) and root.id not in stores and root.id not in params:
+                    aliases[s.targets[0].id] = v
+        if not aliases:
+            continue
+        import copy as _copy
+
+        class T(ast.NodeTransformer):
+            def visit_Name(self, node):
+                if isinstance(node.ctx, ast.Load) and node.id in aliases:
+                    return ast.copy_location(_copy.deepcopy(aliases[node.id]), node)
+                return node
+
+        for i, s in enumerate(fn.body):
+            fn.body[i] = T().visit(s)
+        n_total += len(aliases)
+    return n_total
+
+
 def normalize(tree: ast.Module) -> int:
     nz = Normalizer()
     nz.visit(tree)
+    nz.count += _inline_function_aliases(tree)
     for node in ast.walk(tree):
         for field in ("body", "orelse", "finalbody"):
             v = getattr(node, field, None)
@@ -303,3 +365,194 @@ def normalize(tree: ast.Module) -> int:
     if nz.count:
         ast.fix_missing_locations(tree)
     return nz.count
+
+
+# --------------------------------------------------------------------------- N10: named literal constants
+import re as _re
+
+_CONST_NAME = _re.compile(r"^_?[A-Z][A-Z0-9_]*$")
+
+
+def _literal(v: ast.AST) -> bool:
+    if isinstance(v, ast.Constant) and (v.value is None or isinstance(v.value, (str, int, float, bool))) and not isinstance(v.value, bytes):
+        return True
+    return isinstance(v, ast.UnaryOp) and isinstance(v.op, (ast.USub, ast.UAdd)) and isinstance(v.operand, ast.Constant) and isinstance(v.operand.value, (int, float)) and not isinstance(v.operand.value, bool)
+
+
+def module_literals(tree: ast.Module) -> dict:
+    """UPPER_CASE module-level names bound exactly once, at top level, to a str/number/bool/None literal."""
+    counts: dict = {}
+    vals: dict = {}
+    pending: list = []
+    for n in ast.walk(tree):
+        if isinstance(n, ast.Name) and isinstance(n.ctx, (ast.Store, ast.Del)):
+            counts[n.id] = counts.get(n.id, 0) + 1
+        elif isinstance(n, (ast.Global, ast.Nonlocal)):
+            for x in n.names:
+                counts[x] = counts.get(x, 0) + 2
+    for s in tree.body:
+        tgt = val = None
+        if isinstance(s, ast.Assign) and len(s.targets) == 1 and isinstance(s.targets[0], ast.Name):
+            tgt, val = s.targets[0].id, s.value
+        elif isinstance(s, ast.AnnAssign) and isinstance(s.target, ast.Name) and s.value is not None:
+            tgt, val = s.target.id, s.value
+        if tgt and _CONST_NAME.match(tgt) and counts.get(tgt, 0) == 1:
+            if _literal(val):
+                vals[tgt] = val
+            else:
+                pending.append((tgt, val))
+    # constants built from other constants of the same module: "{}" + LINE_TERMINATOR, 64 * 1024, f"{A}{B}"
+    for _ in range(3):
+        for tgt, val in pending:
+            if tgt in vals:
+                continue
+            v = _fold_simple(val, vals)
+            if v is not _NO:
+                vals[tgt] = ast.copy_location(ast.Constant(value=v), val)
+    return vals
+
+
+_NO = object()
+
+
+def _fold_simple(n: ast.AST, env: dict):
+    if isinstance(n, ast.Constant) and (n.value is None or isinstance(n.value, (str, int, float, bool))):
+        return n.value
+    if isinstance(n, ast.Name) and n.id in env:
+        return _fold_simple(env[n.id], env)
+    if isinstance(n, ast.UnaryOp) and isinstance(n.op, ast.USub):
+        v = _fold_simple(n.operand, env)
+        return -v if isinstance(v, (int, float)) and not isinstance(v, bool) else _NO
+    if isinstance(n, ast.BinOp) and isinstance(n.op, (ast.Add, ast.Mult)):
+        a, b = _fold_simple(n.left, env), _fold_simple(n.right, env)
+        if a is _NO or b is _NO:
+            return _NO
+        try:
+            if isinstance(n.op, ast.Add) and type(a) is type(b) and isinstance(a, (str, int, float)) and not isinstance(a, bool):
+                return a + b
+            if isinstance(n.op, ast.Mult) and isinstance(a, (int, float)) and isinstance(b, (int, float)) and not isinstance(a, bool) and not isinstance(b, bool):
+                return a * b
+        except Exception:
+            return _NO
+        return _NO
+    if isinstance(n, ast.JoinedStr):
+        out = ""
+        for p in n.values:
+            if isinstance(p, ast.Constant):
+                out += str(p.value)
+            elif isinstance(p, ast.FormattedValue) and p.format_spec is None and p.conversion == -1:
+                v = _fold_simple(p.value, env)
+                if not isinstance(v, str):
+                    return _NO
+                out += v
+            else:
+                return _NO
+        return out
+    return _NO
+
+
+def module_dict_constants(tree: ast.Module) -> dict:
+    """UPPER_CASE module-level names bound once to a dict display (possibly wrapped in MappingProxyType/dict/frozendict)
+    whose keys are identifier strings and whose values are literals: usable at `**NAME` call sites."""
+    counts: dict = {}
+    for n in ast.walk(tree):
+        if isinstance(n, ast.Name) and isinstance(n.ctx, (ast.Store, ast.Del)):
+            counts[n.id] = counts.get(n.id, 0) + 1
+    out = {}
+    for s in tree.body:
+        tgt = val = None
+        if isinstance(s, ast.Assign) and len(s.targets) == 1 and isinstance(s.targets[0], ast.Name):
+            tgt, val = s.targets[0].id, s.value
+        elif isinstance(s, ast.AnnAssign) and isinstance(s.target, ast.Name) and s.value is not None:
+            tgt, val = s.target.id, s.value
+        if not tgt or not _CONST_NAME.match(tgt) or counts.get(tgt, 0) != 1:
+            continue
+        if isinstance(val, ast.Call) and len(val.args) == 1 and not val.keywords and ast.unparse(val.func).split(".")[-1] in ("MappingProxyType", "dict", "frozendict"):
+            val = val.args[0]
+        if isinstance(val, ast.Dict) and val.keys and all(isinstance(k, ast.Constant) and isinstance(k.value, str) and k.value.isidentifier() for k in val.keys) and all(_literal(v) for v in val.values):
+            out[tgt] = val
+    return out
+
+
+def propagate_literals(modules: dict, resolve, resolve_dict=None) -> int:
+    """N10: a load of such a name — in the defining module or wherever it is imported by `from m import NAME` — is
+    replaced by the literal (functions and class bodies that rebind the name themselves are left alone).
+    `modules`: name -> (tree, imports {local: (module, attr)});  `resolve(module, name)` -> literal node or None."""
+    import copy
+
+    n_total = 0
+    for mname, (tree, _imports) in modules.items():
+        class T(ast.NodeTransformer):
+            def __init__(self):
+                self.shadow = [set()]
+                self.n = 0
+
+            def _scope(self, node, extra):
+                bound = set(extra)
+                for x in ast.walk(node):
+                    if isinstance(x, ast.Name) and isinstance(x.ctx, (ast.Store, ast.Del)):
+                        bound.add(x.id)
+                    elif isinstance(x, ast.arg):
+                        bound.add(x.arg)
+                    elif isinstance(x, ast.ExceptHandler) and x.name:
+                        bound.add(x.name)
+                    elif isinstance(x, (ast.Import, ast.ImportFrom)):
+                        for a in x.names:
+                            bound.add((a.asname or a.name).split(".")[0])
+                self.shadow.append(bound)
+                self.generic_visit(node)
+                self.shadow.pop()
+                return node
+
+            def visit_FunctionDef(self, node):
+                return self._scope(node, ())
+
+            visit_AsyncFunctionDef = visit_FunctionDef
+            visit_Lambda = visit_FunctionDef
+
+            def visit_ClassDef(self, node):
+                bound = set()
+                for s_ in node.body:
+                    for x in ast.walk(s_):
+                        if isinstance(x, (ast.FunctionDef, ast.AsyncFunctionDef)):
+                            break
+                    if isinstance(s_, (ast.Assign, ast.AnnAssign)):
+                        for t in (s_.targets if isinstance(s_, ast.Assign) else [s_.target]):
+                            if isinstance(t, ast.Name):
+                                bound.add(t.id)
+                self.shadow.append(bound)
+                self.generic_visit(node)
+                self.shadow.pop()
+                return node
+
+            def visit_Call(self, node):
+                # f(**OPTIONS) with OPTIONS a constant mapping of literals  ->  f(k=v, …)
+                if resolve_dict is not None and any(k.arg is None and isinstance(k.value, ast.Name) for k in node.keywords):
+                    explicit = {k.arg for k in node.keywords if k.arg}
+                    new_kw = []
+                    for k in node.keywords:
+                        d = resolve_dict(mname, k.value.id) if (k.arg is None and isinstance(k.value, ast.Name) and not any(k.value.id in sh for sh in self.shadow[1:])) else None
+                        if d is not None and not ({kk.value for kk in d.keys} & explicit):
+                            new_kw += [ast.keyword(arg=kk.value, value=copy.deepcopy(vv)) for kk, vv in zip(d.keys, d.values)]
+                            self.n += 1
+                        else:
+                            new_kw.append(k)
+                    node.keywords = new_kw
+                self.generic_visit(node)
+                return node
+
+            def visit_Name(self, node):
+                if not isinstance(node.ctx, ast.Load) or not _CONST_NAME.match(node.id) or any(node.id in sh for sh in self.shadow[1:]):
+                    return node
+                lit = resolve(mname, node.id)
+                if lit is None:
+                    return node
+                self.n += 1
+                return ast.copy_location(copy.deepcopy(lit), node)
+
+        t = T()
+        # module-level statements: only inside expressions of defs/classes and of other statements' values, never the
+        # defining assignment itself (Store context is untouched anyway)
+        t.visit(tree)
+        n_total += t.n
+    return n_total
